@@ -983,6 +983,9 @@ KNOWN_DEFAULTS = {
 def make_app(fn: str, args, kw=None) -> T:
     args = [as_term(a) for a in args]
     kw = dict(kw or {})
+    if fn in ("numpy.zeros", "numpy.ones", "numpy.empty") and len(args) == 2 and "dtype" not in kw:
+        kw["dtype"] = args[1]           # np.zeros(shape, np.uint16): the second positional parameter is dtype
+        args = args[:1]
     if fn in ("numpy.zeros", "numpy.ones", "numpy.empty") and "dtype" in kw and _is_default_float(kw["dtype"]):
         kw.pop("dtype")                 # float64 is what these constructors produce anyway
     lead = LEADING_PARAMS.get(fn)
